@@ -32,6 +32,12 @@ def main(argv):
     for name, r in models:
         if r.violated and ('model-cex-%s' % name) not in res['bad_traces']:
             chk.infra('new unreproduced model counterexample: %s (%s)' % (name, r.violated))
+    # vouching: transactions of untrusted connections (plain and extended messages, inventories) never make a tx trusted or safe
+    if not chk.replay:
+        from . import txpipeline as tp
+        tsims = tp.gen(chk, 'U4', 160 if thorough else 50, 45, chk.seed * 100 + 23) + tp.gen(chk, 'U3', 160 if thorough else 50, 40, chk.seed * 100 + 24)
+        tres = tp.run(chk, tsims, {'TrustWarranted', 'ItemTrust', 'SafeOnlyWarranted', 'NoError', 'NoPanic'})
+        chk.notes.append('vouching batch: %d TxPipeline histories, %d lines' % (len(tsims), tres['lines']))
     nu = sum(1 for s in scripts for x in s['steps'] if x['a'] == 'UntrustedBlock')
     chk.finish({
         'states': sum(r.distinct for _, r in models), 'transitions': sum(r.generated for _, r in models),
